@@ -34,7 +34,10 @@ type confPoint struct {
 
 // Registry is harness-global, append-only knowledge built from observations.
 type Registry struct {
-	s *Sim
+	// alsoCommitted: entries reported committed by some node at an index
+	// where a different entry had been reported committed first.
+	alsoCommitted map[uint64][]*comRec
+	s             *Sim
 
 	entryAt   map[[2]uint64]*entRec
 	committed map[uint64]*comRec
@@ -146,6 +149,22 @@ func (r *Registry) observeCommitted(e *pb.Entry, observerTerm, by uint64) *comRe
 	rec, ok := r.committed[idx]
 	if ok {
 		if rec.Term != e.GetTerm() || rec.Type != e.GetType() || rec.DataHash != dataHash(e.GetData()) {
+			// a second, different entry reported committed at this index:
+			// remembered for leader completeness (C04 speaks of every entry
+			// that *any* node has committed)
+			dup := false
+			for _, o := range r.alsoCommitted[idx] {
+				if o.Term == e.GetTerm() && o.Type == e.GetType() && o.DataHash == dataHash(e.GetData()) {
+					dup = true
+				}
+			}
+			if !dup {
+				if r.alsoCommitted == nil {
+					r.alsoCommitted = map[uint64][]*comRec{}
+				}
+				r.alsoCommitted[idx] = append(r.alsoCommitted[idx], &comRec{Term: e.GetTerm(), Type: e.GetType(), DataHash: dataHash(e.GetData()),
+					FirstCommitTerm: observerTerm, By: by, Step: r.s.Step})
+			}
 			return rec
 		}
 		return nil
